@@ -85,7 +85,7 @@ def strategy(tier: str):
     )
     return st.fixed_dictionaries(
         {
-            "version": st.one_of(st.none(), st.none(), gen.versions, gen.versions, gen.versions),
+            "version": st.one_of(st.none(), st.none(), gen.versions_any, gen.versions_any, gen.versions_any),
             "metric": st.booleans(),
             "tz": st.sampled_from(sorted(ZONES)),
             "epoch": st.one_of(st.sampled_from((0, 1, 86399, 1_700_000_000, 2_000_000_000)), st.integers(0, 4_000_000_000)),
